@@ -281,6 +281,11 @@ impl Ctx {
     }
 }
 
+/// no empty SortedArray / Array segment (the library never builds one; `range()` unwraps on them)
+fn empty_arrays_free(q: &RowIdSequence) -> bool {
+    segds_of_seq(q).iter().all(|d| !matches!(d, SegD::S(v) | SegD::A(v) if v.is_empty()))
+}
+
 fn nodup(v: &[u64]) -> bool {
     let s: HashSet<u64> = v.iter().copied().collect();
     s.len() == v.len()
@@ -517,7 +522,7 @@ fn exec_line(cx: &mut Ctx, line: &str) -> String {
         }
         ["qdel", r, a, ids] => {
             let (Some((mut q, l)), Some(ids)) = (cx.seq(a), parse_nat_list(ids)) else { return BAD.into() };
-            let pre = nodup(&l);
+            let pre = nodup(&l) && empty_arrays_free(&q);
             if !nodup(&ids) {
                 cx.tags.insert("qdel:dup_ids".into());
             }
@@ -642,16 +647,32 @@ fn exec_line(cx: &mut Ctx, line: &str) -> String {
                 "block" => (RowIdMask::from_block(tm), false),
                 _ => return BAD.into(),
             };
+            // ids in fragment u32::MAX are outside the domain: `RowIdTreeMap::insert_range` (lance-core, C21) overflows there
+            const TOP: u64 = 0xFFFF_FFFF_0000_0000;
+            if l.iter().any(|x| *x >= TOP)
+                || segds_of_seq(&q).iter().any(|d| match d {
+                    SegD::R(a, b) => b > a && *b - 1 >= TOP,
+                    SegD::H(_, b, _) | SegD::B(_, b, _) => *b > 0 && *b - 1 >= TOP,
+                    SegD::S(v) => v.last().is_some_and(|x| *x >= TOP),
+                    SegD::A(v) => v.iter().any(|x| *x >= TOP),
+                })
+            {
+                cx.tags.insert("pre:m2o_top_fragment".into());
+                return "skip-top-fragment".into();
+            }
             match pcatch(|| q.mask_to_offset_ranges(&mask)) {
                 Some(got) => {
                     // only claimed for sequences of unique ids whose sorted segments are sorted
                     let offs: Vec<u64> =
                         l.iter().enumerate().filter(|(_, v)| idset.contains(v) == allow).map(|(i, _)| i as u64).collect();
-                    let want = group(&offs);
+                    // the ranges are non-empty, ascending, disjoint, and cover exactly the offsets of the selected ids
+                    // (adjacent ranges of neighbouring segments are not merged; that is allowed)
+                    let flat: Vec<u64> = got.iter().flat_map(|r| r.clone()).collect();
+                    let shape = got.iter().all(|r| r.start < r.end) && got.windows(2).all(|w| w[0].end <= w[1].start);
                     let multi = segds_of_seq(&q).len() > 1;
-                    if nodup(&l) && got != want {
+                    if nodup(&l) && empty_arrays_free(&q) && (flat != offs || !shape) {
                         let key = if multi { "mask_to_offset_ranges_later_segment" } else { "mask_to_offset_ranges" };
-                        cx.fail(key, format!("mask_to_offset_ranges = {:?}, offsets of the selected ids are {:?}", got, want));
+                        cx.fail(key, format!("mask_to_offset_ranges = {:?}, offsets of the selected ids are {:?}", got, group(&offs)));
                     }
                     show_ranges(&got)
                 }
@@ -873,7 +894,7 @@ fn gen_ids(rng: &mut Rng, tier: Tier) -> Vec<u64> {
         _ => rng.range(3, maxn),
     } as usize;
     // base: small, fragment boundary, or near the u64 limit (all ids stay <= u64::MAX - 1)
-    let span_hint = 4 * n as u64 + 300;
+    let span_hint = 41 * (n as u64 + 1) + 300;
     let base = match rng.below(8) {
         0 => (1u64 << 32) - rng.below(20),
         1 => u64::MAX - 1 - span_hint - rng.below(50),
@@ -923,7 +944,7 @@ fn gen_raw_seg(rng: &mut Rng, ids: &[u64]) -> SegD {
     // a non-canonical but well-formed encoding of a sorted id list (or Array for anything)
     let sorted = is_sorted_strict(ids);
     if !sorted || ids.is_empty() {
-        return if ids.is_empty() && rng.chance(1, 2) { SegD::R(7, 7) } else { SegD::A(ids.to_vec()) };
+        return if ids.is_empty() && rng.chance(9, 10) { SegD::R(7, 7) } else { SegD::A(ids.to_vec()) };
     }
     let (lo, hi) = (ids[0], *ids.last().unwrap());
     let contiguous = hi - lo + 1 == ids.len() as u64;
